@@ -2418,10 +2418,12 @@ def _rewrite_flag_as_fold(prog, rep, R, b):
         return False
     bad = []
     step = None
-    for cons, res in tc.rows:
+    for (cons, res), calls in zip(tc.rows, tc.calls):
         r = render(res)
+        if r in ("place:arg2", "arg2") and not any(n.endswith("Token::set_content") for n, _ in calls):
+            continue                                  # a path without a step (an ignored token ..) hands the accumulator on unchanged
         m = re.match(r"^sym:(BitOr|Or)\((.*)\)$", r)
-        if not m or cons:
+        if not m:
             bad.append("the fold's closure is not `step(..) | accumulator` on every path: %s" % r[:80])
             continue
         if m.group(1) != "BitOr":
